@@ -27,6 +27,10 @@ type Op struct {
 	QoS  byte   `json:"q,omitempty"`
 	Size int    `json:"n,omitempty"`
 	Tok  int    `json:"tok,omitempty"`
+	// Built: the request is constructed with the library's setters (as the
+	// client and Server.Publish do) instead of being decoded from bytes (as
+	// the broker does for forwarded packets); only PUBLISH requests.
+	Built bool `json:"built,omitempty"`
 }
 
 // Script of an ackq run.
@@ -195,6 +199,16 @@ func exec(q *sessions.Ackqueue, op Op) outcome {
 	case "wait":
 		buf := reqBytes(op)
 		m := libMessage(buf)
+		if op.Built && op.Type == refmqtt.PUBLISH && op.QoS > 0 {
+			// same packet, built field by field
+			ref, _, _ := refmqtt.Parse(buf)
+			pm := message.NewPublishMessage()
+			pm.SetTopic([]byte(ref.Topic))
+			pm.SetPayload(append([]byte{}, ref.Payload...))
+			pm.SetQoS(ref.QoS)
+			pm.SetPacketID(ref.ID)
+			m = pm
+		}
 		err := q.Wait(m, op.Tok)
 		o.err = err != nil
 		for i := range buf {
